@@ -109,8 +109,9 @@ def random_case(ctx, rng, part):
     lv, near = W.levels(spec, ihmax)
     lab = np.asarray(part(spec, ihmax))
     if lv is None:
-        # constant spectrum: excluded by the statement; the routine documents an all-zero map
-        if np.all(lab == 0):
+        # constant spectrum: excluded by the statement (no regional maximum to speak of); the
+        # routine may call it "no basin" (all 0) or "one basin" (all 1), nothing else
+        if np.all(lab == 0) or np.all(lab == 1):
             rec.ok("constant_map", key)
         else:
             rec.bad("constant_map", key, {"spec": spec, "labels": lab}, "constant-spectrum-labelled")
